@@ -471,6 +471,8 @@ pub mod vtarget {
     pub enum VKey {
         Version,
         Data,
+        Note,
+        Mode,
     }
 
     #[contracterror]
@@ -480,8 +482,10 @@ pub mod vtarget {
         MigrationNotAllowed = 1,
     }
 
-    /// Upgradable target built on the tree's `interfaces::upgrade` / `interfaces::migrate`;
-    /// its reported version is whatever its migration was told to set.
+    /// Upgradable target built on the tree's `interfaces::upgrade` / `interfaces::migrate`. As with a
+    /// real code swap, the version it reports changes when the code is replaced (every change
+    /// makes it the next of "3.1.4", "3.1.5", ...), not when the migration runs - unless `set_mode` says
+    /// otherwise; the migration takes a string as its data and leaves a mark.
     #[contract]
     pub struct VersionedTarget;
 
@@ -498,13 +502,19 @@ pub mod vtarget {
     #[contractimpl]
     impl UpgradableInterface for VersionedTarget {
         fn version(env: &Env) -> String {
-            env.storage()
-                .instance()
-                .get(&VKey::Version)
-                .unwrap_or(String::from_str(env, "1.0.0"))
+            let n: u32 = env.storage().instance().get(&VKey::Version).unwrap_or(0);
+            if n == 0 {
+                String::from_str(env, "1.0.0")
+            } else {
+                String::from_str(env, &std::format!("3.1.{}", 3 + n))
+            }
         }
         fn upgrade(env: &Env, new_wasm_hash: BytesN<32>) {
             interfaces::upgrade::<Self>(env, new_wasm_hash);
+            if Self::mode(env.clone()) != 1 {
+                let n: u32 = env.storage().instance().get(&VKey::Version).unwrap_or(0);
+                env.storage().instance().set(&VKey::Version, &(n + 1));
+            }
         }
     }
 
@@ -513,15 +523,27 @@ pub mod vtarget {
         pub fn __constructor(env: Env, owner: Address) {
             interfaces::set_owner(&env, &owner);
         }
-        pub fn migrate(env: Env, new_version: String) -> Result<(), VError> {
+        pub fn migrate(env: Env, note: String) -> Result<(), VError> {
             interfaces::migrate::<Self>(&env, || {
-                env.storage().instance().set(&VKey::Version, &new_version);
+                env.storage().instance().set(&VKey::Note, &note);
                 env.storage().instance().set(&VKey::Data, &true);
+                if Self::mode(env.clone()) != 0 {
+                    let n: u32 = env.storage().instance().get(&VKey::Version).unwrap_or(0);
+                    env.storage().instance().set(&VKey::Version, &(n + 1));
+                }
             })
             .map_err(|_| VError::MigrationNotAllowed)
         }
         pub fn data(env: Env) -> bool {
             env.storage().instance().get(&VKey::Data).unwrap_or(false)
+        }
+        /// 0: the version changes with the code (as a real swap does); 1: only the migration
+        /// changes it; 2: both do (the version after `upgrade` is not the final one).
+        pub fn set_mode(env: Env, mode: u32) {
+            env.storage().instance().set(&VKey::Mode, &mode);
+        }
+        pub fn mode(env: Env) -> u32 {
+            env.storage().instance().get(&VKey::Mode).unwrap_or(0)
         }
     }
 }
